@@ -1,7 +1,8 @@
 ----------------------------- MODULE MC_PdbReader -----------------------------
 (* Bounded instance of PdbReader for model checking and case emission.      *)
 EXTENDS Naturals, Integers, Sequences, TLC, Json
-CONSTANTS MaxLen, BlankStops, EndEmptyRaises, GluedKeepsWater, DropWaterChoices, Emit
+CONSTANTS MaxLen, BlankStops, EndEmptyRaises, GluedKeepsWater, EmptyModelContinues, DropWaterChoices, Emit,
+          SymSet   \* the symbols (indices into MCAlphabet) files are built from in this run
 VARIABLES dw, file, errs, pdblist, stopped, pc, res
 
 (***************************************************************************)
@@ -31,7 +32,7 @@ MCAlphabet == <<
 R == INSTANCE PdbReader WITH Alphabet <- MCAlphabet
 ReadLine(s) == R!ReadLine(s)
 Group       == R!Group
-Next        == (\E s \in R!Sym : ReadLine(s)) \/ Group
+Next        == (\E s \in SymSet : ReadLine(s)) \/ Group
 Spec        == R!Init /\ [][Next]_(R!vars)
 AllIngested == R!AllIngested
 EmitInv     == R!EmitInv
